@@ -2,7 +2,7 @@
 import lanimpl
 import simdev
 import vloop
-from common import hx
+from common import hx, lan_of
 from msmart.device.AC.command import GetStateCommand
 from msmart.device.AC.device import AirConditioner as AC
 from msmart.lan import AuthenticationError
@@ -52,14 +52,14 @@ def scenario_run(ctx, stream, name, make_reply, hexform, pre_auth):
         except Exception as e:  # noqa
             res["out"] = lanimpl.canon_exc(e)
         res["tk_after"] = (ac.token, ac.key)
-        res["authed"] = bool(ac._lan._protocol is not None and getattr(ac._lan._protocol, "authenticated", False)
-                             and (not pre_auth or ac._lan.key == k))
+        res["authed"] = bool(lan_of(ac)._protocol is not None and getattr(lan_of(ac)._protocol, "authenticated", False)
+                             and (not pre_auth or lan_of(ac).key == k))
         res["written"] = [e["kind"] for e in dev.log[n_before:]]
         res["tokens_ok"] = all(e.get("token") == t for e in dev.log[n_before:] if e["kind"] == "hs")
         if res["out"] == "ok":
             dev.script = []
             n2 = len(dev.log)
-            r = await ac._lan.send(GetStateCommand().tobytes())
+            r = await lan_of(ac).send(GetStateCommand().tobytes())
             res["send_ok"] = len(r) >= 1 and all(e.get("tag_ok") for e in dev.log[n2:] if e["kind"] == "data")
         res["expect_creds"] = (t.hex(), k.hex())
     try:
